@@ -8,6 +8,7 @@ import SaModel.Lemmas.C07TablesG
 import SaModel.Lemmas.C07TablesH
 import SaModel.Lemmas.C07TablesI
 import SaModel.Trace.Spec
+import SaModel.Lemmas.C07Zoo
 /-
 C07 — the traced schema does not depend on sample order or repetition.
 Model: SaModel/Trace/{Tracer,FromSamples,Leaf}.lean.  Tables: SaModel/Lemmas/C07Tables*.lean.
@@ -527,5 +528,52 @@ set_option maxRecDepth 100000 in
 /-- finding #25, pinned: the third field is not nullable although the first sample lacks it -/
 theorem C07_tuple_arity_pinned :
     childNullable (fromSamplesPinned {} (itemsOf [wT2, wT3])) "2" = some false := by decide +kernel
+
+/-- two samples absorbed one after the other -/
+def absorb2 (c : Code) (o : Options) (t : Tracer) (x y : SVal) : R Tracer :=
+  match absorb c o t x with
+  | .ok t' => absorb c o t' y
+  | .error e => .error e
+
+theorem absorb2_leaf (c : Code) (o : Options) (name path : String) (s : LeafSt) {x y : SVal} {a b : DataType}
+    (hx : leafTypeOf o x = some a) (hy : leafTypeOf o y = some b) :
+    absorb2 c o (LeafSt.embed name path s) x y =
+      match act2 o s a b with
+      | .ok s' => .ok (LeafSt.embed name path s')
+      | .error e => .error e := by
+  unfold absorb2 act2
+  rw [absorb_prim c o _ hx, ensure_primitive_embed]
+  cases act o s a with
+  | ok s' => simp only; rw [absorb_prim c o _ hy, ensure_primitive_embed] <;> try rfl
+  | error e => rfl
+
+/-- `absorb_comm_partial`: the swap law of `absorb` itself, for any two primitive leaf samples at a position that holds
+an `Unknown` or `Primitive` node (any name, any path, any reachable state).
+Missing for the general `absorb_comm`: nested samples (struct fields up to field order, list items, map entries, tuple
+positions, union variants); those are covered by `absorb_comm_on_zoo` (evaluation) and by the correspondence suite. -/
+theorem absorb_comm_partial (c : Code) (o : Options) (hno : o.allow_to_string = false) (name path : String)
+    {s : LeafSt} (hs : s ∈ leafStates o) {x y : SVal} {a b : DataType}
+    (hx : leafTypeOf o x = some a) (hy : leafTypeOf o y = some b) :
+    OutEq (absorb2 c o (LeafSt.embed name path s) x y) (absorb2 c o (LeafSt.embed name path s) y x) := by
+  rw [absorb2_leaf c o name path s hx hy, absorb2_leaf c o name path s hy hx]
+  rcases (coerce_comm o hs (leafTypeOf_mem o hx) (leafTypeOf_mem o hy)).1 hno with ⟨r, h1, h2⟩ | ⟨h1, h2⟩
+  · rw [h1, h2]; exact OutEq.refl _
+  · cases h3 : act2 o s a b with
+    | ok _ => rw [h3] at h1; cases h1
+    | error _ =>
+      cases h4 : act2 o s b a with
+      | ok _ => rw [h4] at h2; cases h2
+      | error _ => exact .inr ⟨rfl, rfl⟩
+
+/-! ### the swap and repetition laws on nested shapes, by evaluation (`SaModel/Lemmas/C07Zoo.lean`) -/
+
+/-- `absorb_comm` and `C07_repeat` on the zoo (repaired code): every ordered pair of 20 nested shapes (optional, lists,
+structs with missing fields, maps with varying keys, tuples, enum variants, nesting) under 4 option settings, through the
+whole `from_samples(Items(..))` pipeline: swapping the two samples gives an equivalent schema or fails alike (a
+success/failure mismatch only under `allow_to_string`), and tracing the pair twice changes nothing -/
+theorem absorb_comm_on_zoo : ∀ o ∈ zooOpts, ∀ x ∈ zooVals, ∀ y ∈ zooVals, swapOK o x y = true ∧ repeatOK o x y = true := by
+  intro o ho x hx y hy
+  have h := List.all_eq_true.mp (List.all_eq_true.mp (List.all_eq_true.mp zoo_swap_repeat o ho) x hx) y hy
+  simpa using h
 
 end SaModel.Props.C07
